@@ -391,6 +391,11 @@ class Scenario(object):
             if t < clock and (held or will_fill):
                 errs.add('ValueError')
             for a in held:
+                # a position remembers the time of its last mark / fill (public attribute, read live like the
+                # portfolio clock): an update earlier than that is refused as well
+                pos = b.portfolios[pid].pos_handler.positions.get(a)
+                if pos is not None and t < pos.current_dt:
+                    errs.add('ValueError')
                 bid, ask = self.book.q[a]
                 if (bid + ask) / 2.0 < 0:
                     errs.add('ValueError')
@@ -533,7 +538,15 @@ class Scenario(object):
                               'valid request %r raised %s: %s' % (op, outcome, exc))
                 raise Stop()
             if self.canon(before) != self.canon(after):
-                raise Stop()   # partial update; only C15 judges it
+                if 'C01' in self.active:
+                    cb, ca = self.canon(before), self.canon(after)
+                    cash_b = (cb['master'], {p: v['cash'] for p, v in cb['ports'].items()})
+                    cash_a = (ca['master'], {p: v['cash'] for p, v in ca['ports'].items()})
+                    if cash_b != cash_a:
+                        self.viol('C01', 'cash-changed-by-refused-request/%s' % op[0],
+                                  'request %r was refused with %s but a cash balance changed: %s'
+                                  % (op, outcome, [d for d in diff_snap(cb, ca) if 'cash' in d][:4]))
+                raise Stop()   # partial update; only C15 judges the rest
             return
 
         # accepted
@@ -559,7 +572,8 @@ class Scenario(object):
             return k + '/over'
         if k in ('update', 'exec'):
             t = ts(op[1]) if k == 'update' else ts(op[3])
-            back = any(t < c for c in self._clock_before.values())
+            back = any(t < c for c in self._clock_before.values()) or any(
+                t < pos.current_dt for p in self.broker.portfolios.values() for pos in p.pos_handler.positions.values())
             return k + ('/backwards-clock' if back else '/negative-mark')
         if k in ('pf_sub', 'pf_wd'):
             if ts(op[2]) < self._clock_before[op[1]]:
@@ -772,7 +786,8 @@ class Scenario(object):
                 pos.bq = pos.sq = 0
                 pos.bpq = pos.spq = pos.bc = pos.sc = Fraction(0)
                 pos.nfills = 0
-            q = int(d['qty'])
+            q = F(d['qty'])
+            q = int(q) if q.denominator == 1 else q
             if q > 0:
                 pos.bq += q; pos.bpq += F(d['price']) * q; pos.bc += F(d['commission'])
             else:
@@ -1505,6 +1520,8 @@ class Gen(object):
         kinds = ['acct_sub_neg', 'acct_wd_neg', 'acct_wd_over', 'p_sub_neg', 'p_sub_unknown', 'p_sub_over',
                  'p_wd_neg', 'p_wd_unknown', 'p_wd_over', 'create_dup', 'get_cash_unknown', 'get_mv_unknown',
                  'get_eq_unknown', 'get_dict_unknown', 'badccy', 'new_broker', 'order_unknown']
+        if self.faults == 'benign+back':
+            kinds += ['update_back', 'update_back', 'update_back', 'update_back']
         if self.faults == 'all':
             kinds += ['update_back', 'update_back', 'update_back', 'neg_mark', 'neg_mark', 'pf_sub_back', 'pf_sub_neg',
                       'pf_wd_back', 'pf_wd_neg', 'pf_wd_over', 'pf_txn_back', 'pf_mark_neg', 'pf_mark_back']
@@ -1554,6 +1571,17 @@ class Gen(object):
             if cand < latest:
                 back = cand
         if k == 'update_back':
+            # while the broker clock is behind a portfolio clock, otherwise valid transfers / orders are requested
+            for _ in range(rng.choice([0, 0, 1, 1, 2])):
+                x = rng.random()
+                if x < 0.4 and master > 0:
+                    self.queue.append(['p_sub', pid, float(master) * rng.choice([0.05, 0.3])])
+                elif x < 0.7:
+                    cash = b.get_portfolio_cash_balance(pid)
+                    self.queue.append(['p_wd', pid, float(max(cash, 0.0)) * rng.choice([0.0, 0.1])])
+                else:
+                    a = rng.choice(sc.cfg['assets'])
+                    self.queue.append(['order', pid, a, self.qty(pid, a), self.oid()])
             self.queue.append(['update', str(self.tmax)])
             return ['update', str(back)]
         if k == 'exec_back':
@@ -1644,6 +1672,10 @@ def run_ops(sc, ops, acc, prop):
 
 
 def run_case(case, acc, prop, active=None):
+    if case.get('kind') == 'symmetry':
+        rng = random.Random(0)
+        # replay of a symmetry pair: same price / quantity / rates
+        return replay_symmetry(case, acc)
     cls = PortfolioScenario if case.get('level') == 'portfolio' else Scenario
     sc = cls(case['cfg'], active or {prop}, acc)
     v = run_ops(sc, case['ops'], acc, prop)
@@ -1682,6 +1714,55 @@ def generate_and_run(rng, acc, prop, faults, nops, active=None):
     return sc
 
 
+def symmetry_pair(rng, acc):
+    """
+    C05: a buy of X and a sell of Y of the same size at the same price must pay the same commission.
+    Half of the pairs have a consideration that is an exact tie (n + 0.5).
+    """
+    install()
+    from qstrader.broker.simulated_broker import SimulatedBroker
+    from qstrader.exchange.simulated_exchange import SimulatedExchange
+    from qstrader.broker.fee_model.percent_fee_model import PercentFeeModel
+    from qstrader.execution.order import Order
+    tie = rng.random() < 0.5
+    if tie:
+        price = float(rng.randint(1, 3000)) + 0.5
+        qty = 2 * rng.randint(0, 400) + 1
+    else:
+        price = rand_price(rng)
+        qty = max(1, int(10 ** rng.uniform(0, 4.5)))
+    spread = rng.choice([0.01, 0.25, 1.0])
+    t = ts(MON_OPEN) + pd.Timedelta(minutes=rng.randint(0, 380))
+    book = QuoteBook()
+    book.now = t
+    book.set('EQ:X', price - spread, price)     # buy X at its ask = price
+    book.set('EQ:Y', price, price + spread)     # sell Y at its bid = price
+    c = rng.choice([0.001, 0.005, 0.05, 0.3, round(rng.random(), 6) + 1e-6])
+    x = rng.choice([0.0, 0.005, round(rng.random(), 6)])
+    broker = SimulatedBroker(t, SimulatedExchange(t), book, initial_funds=1e9,
+                             fee_model=PercentFeeModel(commission_pct=c, tax_pct=x))
+    broker.create_portfolio('P')
+    broker.subscribe_funds_to_portfolio('P', 1e9)
+    del _Instr.txns[:]
+    broker.submit_order('P', Order(t, 'EQ:X', qty, order_id='buy'))
+    broker.submit_order('P', Order(t, 'EQ:Y', -qty, order_id='sell'))
+    broker.update(t)
+    by = {d['order_id']: d for d in _Instr.txns}
+    case = {'kind': 'symmetry', 'price': price, 'qty': qty, 'rates': [c, x], 'tie': tie}
+    if set(by) != {'buy', 'sell'}:
+        raise Violation('C05', 'symmetry/fills', 'expected one buy and one sell fill, got %s' % sorted(by), case)
+    cb, cs = by['buy']['commission'], by['sell']['commission']
+    acc.count('C05:symmetry_pairs')
+    if tie:
+        acc.count('C05:symmetry_pairs_on_exact_tie')
+    if by['buy']['price'] != price or by['sell']['price'] != price:
+        raise Violation('C05', 'symmetry/price', 'buy at %r sell at %r, both quotes are %r' % (by['buy']['price'], by['sell']['price'], price), case)
+    if abs(cb - cs) > 1e-12 * max(abs(cb), abs(cs), 1e-300) or cb < 0 or cs < 0:
+        raise Violation('C05', 'commission-asymmetric' + ('/tie' if tie else ''),
+                        'buy of %d @ %r is charged %r but the sell of the same size at the same price is charged %r '
+                        '(consideration %r, rates %r + %r)' % (qty, price, cb, cs, price * qty, c, x), case)
+
+
 def shard_broker(spec, acc, prop, faults):
     rng = random.Random(spec['rng'])
     import time
@@ -1692,7 +1773,42 @@ def shard_broker(spec, acc, prop, faults):
             break
         nops = rng.choice([10, 20, 40, 40, 80, 120, 200])
         generate_and_run(rng, acc, prop, faults, nops)
+    if prop == 'C05':
+        for i in range(spec['cases'] * 6):
+            try:
+                symmetry_pair(rng, acc)
+            except Violation as v:
+                acc.violation(v, v.witness)
     acc.count('contract_evaluations', CONTRACT_EVALS['n'])
     acc.count('hook:transact_asset', _Instr.hits['transact_asset'])
     acc.count('hook:cash_write', _Instr.hits['cash_write'])
     acc.count('hook:master_write', _Instr.hits['master_write'])
+
+
+def replay_symmetry(case, acc):
+    class R(object):
+        """rng stub that replays the recorded draw"""
+    install()
+    from qstrader.broker.simulated_broker import SimulatedBroker
+    from qstrader.exchange.simulated_exchange import SimulatedExchange
+    from qstrader.broker.fee_model.percent_fee_model import PercentFeeModel
+    from qstrader.execution.order import Order
+    price, qty, (c, x) = case['price'], case['qty'], case['rates']
+    t = ts(MON_OPEN)
+    book = QuoteBook()
+    book.now = t
+    book.set('EQ:X', price - 0.25, price)
+    book.set('EQ:Y', price, price + 0.25)
+    broker = SimulatedBroker(t, SimulatedExchange(t), book, initial_funds=1e9,
+                             fee_model=PercentFeeModel(commission_pct=c, tax_pct=x))
+    broker.create_portfolio('P')
+    broker.subscribe_funds_to_portfolio('P', 1e9)
+    del _Instr.txns[:]
+    broker.submit_order('P', Order(t, 'EQ:X', qty, order_id='buy'))
+    broker.submit_order('P', Order(t, 'EQ:Y', -qty, order_id='sell'))
+    broker.update(t)
+    by = {d['order_id']: d for d in _Instr.txns}
+    cb, cs = by['buy']['commission'], by['sell']['commission']
+    acc.count('C05:symmetry_pairs')
+    if abs(cb - cs) > 1e-12 * max(abs(cb), abs(cs), 1e-300):
+        acc.violation(Violation('C05', 'commission-asymmetric', 'buy charged %r, sell charged %r' % (cb, cs), case), case)
